@@ -1,6 +1,6 @@
 CONSTANTS
   Dev = {}
-  Alphabet = <<>>
+  Alphabet <- NoAlphabet
   MaxLen = 0
   DepthProbe = {}
 SPECIFICATION TSpec
